@@ -57,6 +57,20 @@ CLAIMED["C01"] = (
     "of scope; variable maps are JSON-like (string keys).",
     "DESIGN.md 3/C01",
 )
+CLAIMED["C11"] = (
+    "model-based: scripted visitors over grammar-generated ASTs compared call by call with a recursive "
+    "reference traversal (dataclass reflection, source order), incl. edit results, identity of untouched "
+    "subtrees, immutability of the input and ParallelVisitor members vs their solo runs",
+    "For generated trees of every node kind and scripts of skip/break/remove/replace decisions on enter or "
+    "leave (generic or kind-specific handlers) the implementation's call log (phase, kind, key, path, "
+    "parent, ancestors) must equal the reference's, the edited result must equal the reference's result "
+    "with untouched subtrees shared by identity, the input must stay unchanged, a no-edit visit must return "
+    "the same object, parallel members must see their solo logs, and every decision on the root must return "
+    "without raising.",
+    "Child order is derived from source offsets of the parsed tree; results after BREAK or root removal are "
+    "not compared.",
+    "DESIGN.md 3/C11",
+)
 PENDING_REASON = (
     "check under construction in this session (DESIGN.md section 3 has its design); it is not claimed "
     "until it has run quietly on the unchanged tree at several seeds"
